@@ -151,7 +151,13 @@ class Codec:
         valid_idx = rawmsg.find(b"8=FIX.")
         if valid_idx == -1:
             assert silent, "no fix header"
-            return None, len(rawmsg), None
+            # a read may end inside the frame start marker: keep its possible head
+            keep = 0
+            for n in range(min(len(rawmsg), 5), 0, -1):
+                if rawmsg.endswith(b"8=FIX."[:n]):
+                    keep = n
+                    break
+            return None, len(rawmsg) - keep, None
 
         parsed_length = valid_idx
 
